@@ -471,6 +471,70 @@ pub fn encoded_strategy() -> BoxedStrategy<Case> {
         .boxed()
 }
 
+// ---- part replace-nested: "a replace filter only substitutes whole element spans" on well-formed documents ----------------------
+// The target element may contain elements of its own name (a <div> inside the <div>, a list inside a list item's list ...). The whole
+// element - start tag to *its* end tag - has to go. With depth 0 the relation holds on the tree as it is; with depth >= 1 it does not:
+// known finding D52 (was observation O11), the streaming filter ends the target at the first end tag bearing its name.
+pub const D52: &str = "d52-replace-ends-at-the-first-end-tag-of-the-targets-name";
+
+#[derive(Serialize, Deserialize, Clone, Debug, PartialEq)]
+pub struct NestedCase {
+    pub tag: String,
+    pub attrs: String,
+    /// elements of the same name nested inside the target, one inside the other
+    pub depth: u8,
+    /// text before / inside / after the nested elements, and after the target
+    pub texts: (String, String, String, String),
+    /// a sibling element of another name around the nested ones
+    pub wrap: bool,
+    pub schedule: Schedule,
+}
+
+pub fn nested_doc(c: &NestedCase) -> (String, String) {
+    let t = &c.tag;
+    let mut inner = c.texts.1.clone();
+    for _ in 0..c.depth {
+        inner = format!("<{t}>{inner}</{t}>");
+    }
+    if c.wrap {
+        inner = format!("<p>{inner}</p>");
+    }
+    let doc = format!("<html><body><{t}{}>{}{inner}{}</{t}>{}</body></html>", c.attrs, c.texts.0, c.texts.2, c.texts.3);
+    let expected = format!("<html><body>~~NEW~~{}</body></html>", c.texts.3);
+    (doc, expected)
+}
+
+pub fn check_nested(c: &NestedCase) -> Outcome {
+    let mut out = Outcome::new();
+    let (doc, expected) = nested_doc(c);
+    let filter = json!({"action": "replace", "value": "~~NEW~~", "inner_value": null, "element_tree": ["html", "body", c.tag], "css_selector": null, "id": null, "target_hash": null});
+    let r = run_schedule(&[filter], &[Header { name: "Content-Type".into(), value: "text/html".into() }], doc.as_bytes(), &c.schedule);
+    let got = String::from_utf8_lossy(&r.out).to_string();
+    if got != expected {
+        if c.depth >= 1 && got.contains("~~NEW~~") && got.len() > expected.len() {
+            out.fail(format!("replace ended at the first end tag of the target's name: {doc:?} -> {got:?}, the whole element replaced gives {expected:?}"));
+        } else {
+            out.fail(format!("replace on {doc:?} (schedule {:?}) gives {got:?}, the whole element replaced gives {expected:?}", c.schedule));
+        }
+        return out;
+    }
+    out.nontrivial = true;
+    out.class(if c.depth == 0 { "no-same-name-element-inside" } else { "same-name-element-inside" });
+    out
+}
+
+pub fn is_d52(c: &NestedCase, msg: &str) -> bool {
+    c.depth >= 1 && msg.starts_with("replace ended at the first end tag of the target's name:")
+}
+
+fn nested_strategy() -> BoxedStrategy<NestedCase> {
+    let text = || pick(vec!["", "a", "b c", "x < y", "\u{e9}t\u{e9}", "1 > 0", "&amp;"]).prop_map(|s| s.to_string());
+    let schedule = prop_oneof![3 => Just(Schedule::Whole), 2 => Just(Schedule::Bytewise), 3 => (0usize..120).prop_map(Schedule::Two), 1 => pick(vec![1usize, 3, 7]).prop_map(Schedule::Stride)];
+    (pick(vec!["div", "section", "ul", "span", "DIV"]), pick(vec!["", " id=\"old\"", " class='a b'", " data-x=1 "]), pickw(vec![(5u32, 0u8), (3, 1), (2, 2)]), (text(), text(), text(), text()), any::<bool>(), schedule)
+        .prop_map(|(tag, attrs, depth, texts, wrap, schedule)| NestedCase { tag: tag.to_lowercase(), attrs: attrs.to_string(), depth, texts, wrap, schedule })
+        .boxed()
+}
+
 pub fn run(ctx: &Ctx) -> Report {
     let mut rep = Report::new(
         "C04",
@@ -486,9 +550,17 @@ pub fn run(ctx: &Ctx) -> Report {
         return rep;
     }
     rep.add(run_part(ctx, "declared-encodings", ctx.cases(150_000, 4_000_000), encoded_strategy, check, &[KnownSig { name: D26, pred: is_d26 }]));
+    if rep.has_violation() {
+        return rep;
+    }
+    rep.assume("part replace-nested (round 4): well-formed documents whose replace target holds 0..2 nested elements of its own name; the whole element, start tag to its own end tag, has to be replaced (`only substitutes whole element spans`); while known finding D52 is listed the cases with a same-name element inside are counted as that finding");
+    rep.add(run_part(ctx, "replace-nested", ctx.cases(20_000, 400_000), nested_strategy, check_nested, &[KnownSig { name: D52, pred: is_d52 }]));
     rep
 }
 
-pub fn replay(_part: &str, case: &Value) -> Result<Outcome, String> {
+pub fn replay(part: &str, case: &Value) -> Result<Outcome, String> {
+    if part == "replace-nested" {
+        return replay_case::<NestedCase, _>(case, check_nested);
+    }
     replay_case::<Case, _>(case, check)
 }
